@@ -234,4 +234,84 @@ example : QWF [{ conn := 2, allowRepl := true, noQueue := true }, { conn := 5, a
   refine ⟨by unfold QWF; decide, ?_⟩
   simp [EditsOk, Edit.ok, Edit.apply, QTx.addOwner, qAdd, inQueue, flagReplace, insertSecond]
 
+/-! ### the pending-reply list: the two hooked edits of bus/connection.c
+
+  `bus_connections_expect_reply` prepends a slot and registers `cancel_pending_reply` (remove it
+  again); `bus_connections_check_reply` unlinks the slot a reply uses up and registers
+  `cancel_check_pending_reply`, which puts the link back *at the head* (`bus_expire_list_add_link`):
+  a cancelled transaction restores the list up to order — and the order of pending replies is not
+  observable (every entry carries its own deadline). -/
+
+inductive PEdit
+  | expect (p : Pending)      -- a call was let through: slot recorded
+  | check (p : Pending)       -- a reply was let through: its slot unlinked
+
+structure PTx where
+  pend : List Pending
+  hooks : List PEdit := []    -- most recent first (cancel runs them in that order)
+
+def PEdit.ok (l : List Pending) : PEdit → Prop
+  | .expect p => p ∉ l
+  | .check p => p ∈ l
+
+def PEdit.apply (t : PTx) : PEdit → PTx
+  | .expect p => { pend := p :: t.pend, hooks := .expect p :: t.hooks }
+  | .check p => { pend := t.pend.erase p, hooks := .check p :: t.hooks }
+
+def PEdit.undo (l : List Pending) : PEdit → List Pending
+  | .expect p => l.erase p          -- cancel_pending_reply
+  | .check p => p :: l              -- cancel_check_pending_reply
+
+def PTx.cancel (t : PTx) : List Pending := t.hooks.foldl PEdit.undo t.pend
+
+def PEditsOk : List Pending → List PEdit → Prop
+  | _, [] => True
+  | l, e :: es => e.ok l ∧ PEditsOk (e.apply { pend := l }).pend es
+
+theorem papply_pend_indep (t : PTx) (e : PEdit) : (e.apply t).pend = (e.apply { pend := t.pend }).pend := by
+  cases e <;> rfl
+
+/-- undoing the hooks of a transaction, newest first, gives back the pending replies it started from, as a
+    multiset -/
+theorem pending_cancel_restores : ∀ (es : List PEdit) (t : PTx), t.pend.Nodup → PEditsOk t.pend es →
+    ((es.foldl PEdit.apply t).hooks.foldl PEdit.undo (es.foldl PEdit.apply t).pend).Perm (t.hooks.foldl PEdit.undo t.pend)
+  | [], _, _, _ => List.Perm.refl _
+  | e :: es, t, hn, hok => by
+    simp only [List.foldl_cons]
+    have hok' : PEditsOk (e.apply t).pend es := by rw [papply_pend_indep]; exact hok.2
+    have hn' : (e.apply t).pend.Nodup := by
+      cases e with
+      | expect p => exact List.nodup_cons.mpr ⟨hok.1, hn⟩
+      | check p => exact hn.sublist List.erase_sublist
+    refine (pending_cancel_restores es (e.apply t) hn' hok').trans ?_
+    -- one step: the newest hook undoes the newest edit, up to order
+    have step : (PEdit.undo (e.apply t).pend e).Perm t.pend := by
+      cases e with
+      | expect p => simp [PEdit.apply, PEdit.undo]
+      | check p => exact (List.perm_cons_erase hok.1).symm
+    have hfold : ∀ (hs : List PEdit) (a b : List Pending), a.Perm b → (hs.foldl PEdit.undo a).Perm (hs.foldl PEdit.undo b) := by
+      intro hs
+      induction hs with
+      | nil => intro a b h; exact h
+      | cons h0 hs ih =>
+        intro a b h
+        simp only [List.foldl_cons]
+        apply ih
+        cases h0 with
+        | expect p => exact h.erase p
+        | check p => exact h.cons p
+    cases e with
+    | expect p => exact hfold t.hooks _ _ step
+    | check p => exact hfold t.hooks _ _ step
+
+/-- a transaction that is cancelled leaves the pending replies as they were (up to order) -/
+theorem cancelled_transaction_restores_pending (l : List Pending) (es : List PEdit) (hn : l.Nodup) (hok : PEditsOk l es) :
+    (PTx.cancel (es.foldl PEdit.apply { pend := l })).Perm l :=
+  pending_cancel_restores es { pend := l } hn hok
+
+/-- the hypotheses are met: a reply consumes one slot, a call opens another, and the cancellation restores both -/
+example : PEditsOk [⟨1, 2, 7⟩] [.check ⟨1, 2, 7⟩, .expect ⟨2, 1, 9⟩] := by
+  refine ⟨List.mem_cons_self, ?_, trivial⟩
+  simp [PEdit.apply, PEdit.ok]
+
 end Dbus.Props.C14
